@@ -282,7 +282,8 @@ def gen_stmt(r, st, closures, counter):
     names = list(st)
     kind = r.choice(["decl", "assign", "idx", "idx", "idx", "opassign", "opassign", "opassign", "every_slice", "every_vars",
                      "every_dict", "pop", "remove", "remove_slice", "remove_key", "consume", "swap", "swap", "update",
-                     "elem", "dotassign", "closure_make", "closure_call", "forloop", "default_mat", "nested_append"])
+                     "elem", "dotassign", "closure_make", "closure_call", "forloop", "default_mat", "nested_append", "failed", "failed",
+                     "idx_equal_other_type"])
     big = total_size(st) > 160
     if kind == "decl":
         free = [v for v in VARS if v not in st]
@@ -567,6 +568,35 @@ def gen_stmt(r, st, closures, counter):
             return None
         tv.m[ckey(key)] = (cur[0] if cur else key, base + [5])
         return "%s[%s] append= 5" % (path_src(x, steps), src(key)), kind, [x]
+    if kind == "failed":
+        # a statement that raises (caught) must leave every variable, including the one it names, unchanged
+        p = random_path(r, xv, lambda t: is_list(t) or isinstance(t, (str, Vec, bytes)))
+        if not p:
+            return None
+        steps, tv = p
+        n_ = len(tv)
+        bad = r.choice([n_, n_ + 3, -n_ - 1, 99])
+        ps = path_src(x, steps)
+        idx = "[%d]" % bad if bad >= 0 else "[(%d)]" % bad
+        if is_list(tv):
+            stmt = r.choice(["%s%s = 1" % (ps, idx), "%s%s += 1" % (ps, idx), "pop %s%s" % (ps, idx), "remove %s%s" % (ps, idx),
+                             "%s%s[0] = 1" % (ps, idx), "swap %s%s, %s" % (ps, idx, x), "%s%s append= 1" % (ps, idx)])
+        elif isinstance(tv, str):
+            stmt = r.choice(["%s%s = \"x\"" % (ps, idx)] + (["%s[0] = \"xy\"" % ps, "%s[0] = 5" % ps, "%s[0] = \"\"" % ps] if n_ else []))
+        elif isinstance(tv, Vec):
+            stmt = r.choice(["%s%s = 1" % (ps, idx)] + (["%s[0] = \"a\"" % ps, "%s[0] = [1]" % ps] if n_ else []))
+        else:
+            stmt = r.choice(["%s%s = 1" % (ps, idx)] + (["%s[0] = 999" % ps, "%s[0] = \"a\"" % ps, "%s[0] = (0 - 1)" % ps] if n_ else []))
+        return "try (%s; \"no error\") catch __x -> null" % stmt, kind, [x]
+    if kind == "idx_equal_other_type":
+        # overwrite a slot with a value that is == to the old one but of another type (1 -> 1.0, [1] -> [1.0])
+        p = random_path(r, xv, lambda t: (isinstance(t, int) and not isinstance(t, bool)) or (is_list(t) and len(t) > 0 and all(isinstance(e, int) for e in t)))
+        if not p or not p[0]:
+            return None
+        steps, tv = p
+        nv = float(tv) if isinstance(tv, int) else [float(e) for e in tv]
+        st[x] = set_path(xv, steps, nv)
+        return "%s = %s" % (path_src(x, steps), vsrc(nv)), kind, [x]
     if kind == "nested_append":
         p = random_path(r, xv, lambda t: is_list(t) and any(is_list(e) for e in t))
         if not p:
@@ -702,8 +732,7 @@ USER_FUNCS = ["\\q -> (q[0] = 99; q)", "\\q -> (q append= 1; q)", "\\q -> (q = 5
 
 
 def run_calls(sh, w, r, si, n, pairs_per):
-    names = sorted(x["name"] for x in w.run({"id": "n", "kind": "names"})["result"]["names"]
-                   if x["kind"] in ("builtin", "type"))
+    names = sorted(x["name"] for x in core.global_names(w) if x["kind"] in ("builtin", "type"))
     callables = [x for x in names if x not in pool.EXCLUDED]
     ev0 = core.eval_all(w, ["0"], prelude=pool.PRELUDE, fresh_each=True, observe=pool.NAMES)[0]
     base = {k: norm(v) for k, v in ev0["vars"].items()}
